@@ -75,6 +75,11 @@ func (i *interpreter) methodString(fr *frame, v iface, names ...string) (value, 
 		if p, ok := v.v.(*value); ok && p == nil {
 			return "<nil>", true
 		}
+		if i.opaqueInts && hasSymbolic(v.v, 0) {
+			// error text: do not format symbolic values
+			i.opaqueFmt++
+			return "<sym>", true
+		}
 		return call(i, fr, 0, m, []value{v.v}), true
 	}
 	return nil, false
